@@ -134,11 +134,55 @@ def absolute(x):
     return abs(asarray(x))
 
 
+class LazyBincount:
+    """bincount of symbolic magnitudes (C01): a sparse view -- positions are the distinct
+    magnitudes (solver-ordered), counts are concrete.  Supports what from_array consumes."""
+
+    def __init__(self, vals):
+        uniq = []
+        counts = []
+        for v in vals:
+            for i, u in enumerate(uniq):
+                if e_eq(u, v) is True or (e_eq(u, v) is not False and bool(e_eq(u, v))):
+                    counts[i] += 1
+                    break
+            else:
+                uniq.append(v)
+                counts.append(1)
+        p = _sorted_perm(uniq)
+        self.keys = [uniq[i] for i in p]
+        self.counts = [counts[i] for i in p]
+        self.dtype = rnp.dtype(rnp.int64)
+
+    def nonzero(self):
+        o = rnp.empty(len(self.keys), dtype=object)
+        for i, k in enumerate(self.keys):
+            o[i] = k
+        return (ndarray(o, rnp.int64),)
+
+    def __getitem__(self, i):
+        if isinstance(i, ndarray):
+            i = i.scalar_value()
+        for k, c in zip(self.keys, self.counts):
+            r = e_eq(k, i)
+            if r is True or (r is not False and bool(r)):
+                return mkscalar(c, rnp.int64)
+        return mkscalar(0, rnp.int64)
+
+
 def bincount(x, weights=None, minlength=0):
     x = asarray(x).fixed()
     if x.o.ndim != 1:
         raise ValueError("object too deep for desired array")
     minlength = _cint(minlength)
+    if weights is None and minlength == 0 and builtins_any(isinstance(v, S.SKey) for v in x.o):
+        rnp.bincount(x.shadow())
+        neg = False
+        for v in x.o:
+            neg = e_or(neg, e_lt(v, 0))
+        if neg is not False and bool(neg):
+            raise ValueError("'list' argument must have no negative elements")
+        return LazyBincount(list(x.o))
     shx = x.shadow()
     if weights is not None:
         weights = asarray(weights).fixed()
@@ -396,6 +440,13 @@ def diff(a, n=1, axis=-1, prepend=None, append=None):
     for i in range(len(vals) - 1):
         out[i] = e_sub(vals[i + 1], vals[i])
     return ndarray(_cast_arr(out, sh.dtype), sh.dtype)
+
+
+def builtins_any(it_):
+    for x in it_:
+        if x:
+            return True
+    return False
 
 
 def builtins_max(a, b):
